@@ -459,6 +459,68 @@ def print_case(item):
     return out
 
 
+def slice_grid_case(item):
+    """(n, cache length, (start, stop, step)) -> None or a description of the difference"""
+    from vyxal.LazyList import LazyList
+    n, c, (a, b, st) = item
+    src = list(range(n))
+    L = LazyList(iter(list(src)))
+    for _ in range(c):
+        next(L)                       # a cache of exactly c items
+    try:
+        got = L[slice(a, b, st)]
+        got = [int(x) for x in got]
+    except Exception as e:  # noqa: BLE001
+        got = "EXC:" + type(e).__name__
+    try:
+        want = src[slice(a, b, st)]
+    except Exception as e:  # noqa: BLE001
+        want = "EXC:" + type(e).__name__
+    if got != want:
+        return f"L[{a}:{b}:{st}] with {c} of {n} items already generated gives {got}, the list gives {want}"
+    rest = [int(x) for x in L.listify()]
+    if rest != src:
+        return f"after L[{a}:{b}:{st}] with {c} of {n} items generated the list reads {rest}"
+    return None
+
+
+def slice_grid_oracle(env):
+    """every slice (start, stop, step) on every partially generated cache: the cache length at the moment of
+    the slice is the parameter random histories rarely hit together with a particular start / step"""
+    items = []
+    for n in env.budget((4, 6, 8), (3, 4, 5, 6, 7, 8, 9)):
+        for c in range(n + 1):
+            for a in [None] + list(range(0, n + 1)):
+                for b in [None] + list(range(0, n + 2)):
+                    for st in (None, 1, 2, 3, 4, -1, -2):
+                        if st is not None and st < 0 and (a is None or b is None):
+                            continue          # open-ended negative steps: covered by the histories (documented wrap-around aside)
+                        items.append((n, c, (a, b, st)))
+    chunk = 2000
+    groups = [items[i:i + chunk] for i in range(0, len(items), chunk)]
+    res = V.pmap(slice_grid_group, groups, timeout=120)
+    bad = 0
+    for g, (st_, val) in zip(groups, res):
+        if st_ != "ok":
+            env.proof_broken("slice grid did not finish", f"{st_} {val}")
+            continue
+        for it, what in val:
+            bad += 1
+            if bad <= 5:
+                env.fail({"kind": "slice-on-partial-cache", "length": it[0], "generated": it[1], "slice": list(it[2])}, what, cls="slice:partial-cache")
+    env.count(len(items), (f"grid:{n}:{c}:{sl}" for n, c, sl in items if 0 < c < n))
+    env.note("slice_grid", {"cases": len(items), "differ": bad})
+
+
+def slice_grid_group(group):
+    out = []
+    for it in group:
+        w = slice_grid_case(it)
+        if w is not None:
+            out.append((it, w))
+    return out
+
+
 def print_oracle(env):
     rng = env.rng
     items = []
@@ -586,6 +648,7 @@ def run(env):
     env.note("cells_per_history_distribution", {str(k): v for k, v in sorted(cellhist.items())})
     env.note("random_histories", len(rcases))
     env.note("random_source_lengths", dict(sorted(collections.Counter(len(c[0]) for c in rcases).items())))
+    slice_grid_oracle(env)
     print_oracle(env)
     env.assume("printing (LazyList.output) is outside the Coq model, whose cells hold integers: the oracle alone compares the printed text of a "
                "lazy list of ints / strings / nested lists after observations with the printed text of the plain list")
